@@ -12,6 +12,6 @@ Init == /\ cfg \in Configs /\ pos \in {"before", "between", "after"}
         /\ Possible(cl.cred, cl.fault)
 Next == UNCHANGED <<cfg, cl, pos>>
 Spec == Init /\ [][Next]_<<cfg, cl, pos>>
-OnlyNamed == Admitted(cl.cred, cl.fault, cfg.rule) <=> (cl.fault = "none" /\ (cl.cred = "ok" \/ (~cfg.rule /\ cl.cred \in {"wrongname", "intermediate"})))
+OnlyNamed == Admitted(cl.cred, cl.fault, cfg.rule) <=> (cl.fault = "none" /\ (cl.cred = "ok" \/ (~cfg.rule /\ cl.cred \in {"wrongname", "intermediate", "namecase", "nameprefix", "namesuffix", "namesan"})))
 Export == PrintT(<<"SCENARIO", ToJson([rule |-> cfg.rule, pass |-> cfg.pass, cred |-> cl.cred, fault |-> cl.fault, pos |-> pos])>>)
 =============================================================================
